@@ -222,7 +222,7 @@ def rule_leafcount(ctx):
 
     return C.reuse_rule(ctx, rule_surv, "C18-SURV", "C03-SURV",
                         "the tree's survival predicates and leaf counts (what 'indices that "
-                        "survive' means)", lambda i: C.CORE in i.construct, 3)
+                        "survive' means)", lambda i: C.CORE in i.construct or C.ANNEAL in i.construct, 3)
 
 
 def rule_multpair(ctx):
@@ -375,4 +375,13 @@ def rule_exec(ctx):
     return r
 
 
-RULES = [rule_prov, rule_mult, rule_leafcount, rule_multpair, rule_exec, rule_peak, rule_intsize]
+def rule_maxcount(ctx):
+    """Shared with C04-MAXCOUNT: max_size / contraction_width are read off the counter."""
+    from .c04 import rule_maxcount as src
+
+    return C.reuse_rule(ctx, src, "C04-MAXCOUNT", "C03-MAXCOUNT",
+                        "the reported largest intermediate is the maximum of what the tracker holds",
+                        lambda i: True, 2)
+
+
+RULES = [rule_prov, rule_mult, rule_leafcount, rule_multpair, rule_exec, rule_peak, rule_intsize, rule_maxcount]
